@@ -166,7 +166,8 @@ def judge(ctx, cases):
             witness = {"prog": s["prog"], "sched": s["sched"],
                        "calls": [[e["g"], e["op"]] for e in run["ev"] if e["e"] == "ret"]}
         else:
-            witness = {"free": case["free"], "event": b["j"]}
+            witness = {"free": case["free"], "event": b["j"], "run": b["i"],
+                       "note": "free-running -race run: the schedule was chosen by the Go scheduler and is not forced on replay"}
         recs.append({"api": api, "kind": kind, "locus": locus, "witness": witness, "case": case,
                      "detail": {"run_mode": run.get("mode"), "event_index": b["j"]}})
     return recs
